@@ -197,6 +197,8 @@ impl<'a, C> ParseState<'a, C> {
         self.env = ParseState::_build_env(input);
         self.len_env = self.env.len();
         self.head = head;
+        // 清空「中间解析结果」，避免上一输入的残留条目泄漏到下一输入
+        self.mid_result = MidParseResult::new();
     }
 
     /// 重置状态
